@@ -4,6 +4,8 @@ From Signalo Require Import Base.QR Base.ListX.
 Definition mean_spec_at (div : Q -> Q -> Q) (N : nat) (xs : list Q) (k : nat) : Q :=
   let w := lastn N (firstn (S k) xs) in div (qsum w) (qnat (length w)).
 
+(* ys are the outputs for the LAST |ys| samples of xs (all of them in the usual case) *)
 Definition mean_spec_okb (div : Q -> Q -> Q) (N : nat) (xs ys : list Q) : bool :=
-  (length xs =? length ys) &&
-  forallb (fun k => qeqb (nth k ys 0) (mean_spec_at div N xs k)) (seq 0 (length xs)).
+  (length ys <=? length xs)%nat &&
+  let off := (length xs - length ys)%nat in
+  forallb (fun k => qeqb (nth k ys 0) (mean_spec_at div N xs (off + k)%nat)) (seq 0 (length ys)).
